@@ -168,6 +168,28 @@ def _const_ids(f):
     return out
 
 
+def split_goal(g):
+    """Split a goal into independently provable parts: conjunctions under (nested) foralls / implications."""
+    if z3.is_and(g):
+        out = []
+        for i in range(g.num_args()):
+            out += split_goal(g.arg(i))
+        return out
+    if z3.is_quantifier(g) and g.is_forall():
+        vs = [z3.Const("%s!s" % g.var_name(i), g.var_sort(i)) for i in range(g.num_vars())]
+        body = z3.substitute_vars(g.body(), *reversed(vs))
+        parts = split_goal(body)
+        if len(parts) <= 1:
+            return [g]
+        return [z3.ForAll(vs, p) for p in parts]
+    if z3.is_implies(g):
+        parts = split_goal(g.arg(1))
+        if len(parts) <= 1:
+            return [g]
+        return [z3.Implies(g.arg(0), p) for p in parts]
+    return [g]
+
+
 _QCACHE = {}
 
 
@@ -388,8 +410,15 @@ class Engine:
         name = "%s::%s" % (self.cur_func, label)
         if not z3.is_true(g):
             where = header_text(self.cur_stmt) if self.cur_stmt is not None else ""
-            self.obligations.append(Obligation(name, kind, list(self.st.glob) + list(self.st.pc), goal, props or self.cur_props,
-                                               self.cur_func, where, text))
+            parts = split_goal(goal)
+            if len(parts) > 12:
+                parts = [goal]
+            pc_now = list(self.st.glob) + list(self.st.pc)
+            for k_, part in enumerate(parts):
+                if z3.is_true(z3.simplify(part)):
+                    continue
+                nm = name if len(parts) == 1 else "%s #%d/%d" % (name, k_ + 1, len(parts))
+                self.obligations.append(Obligation(nm, kind, pc_now, part, props or self.cur_props, self.cur_func, where, text))
         else:
             self.trivial += 1
         self.st.pc.append(goal)
